@@ -114,7 +114,7 @@ public:
   }
 
   // typification text for a structure definition
-  std::string StructureDef() { GTy t = RandomElemType(0, r.Pct(35) ? 3 : 2);   // sometimes one level deeper: sets inside tuples inside sets
+  std::string StructureDef() { GTy t = RandomElemType(0, r.Pct(50) ? 3 : 2);   // sometimes one level deeper: sets inside tuples inside sets
      if (t.k == GTy::ELEM || t.k == GTy::INT) t = GTy::Set(t); return Dom(t); }
 
   std::string Expr(const GTy& t, int depth) {
